@@ -6,7 +6,7 @@
    compressor produces.  [store_wf] is: pointers unique, block metadata truthful (Rows,
    UncompressedSize), ranges sane, every row inside a block with its partition whose ranges
    cover its indexed values, filters built from (at least) the entries of the rows. *)
-From BS Require Import Lib.Bytes Model.MinMax Proofs.MinMaxProofs Model.MergePlan Proofs.MergePlanProofs.
+From BS Require Import Lib.Bytes Model.Json Model.Expr Model.MinMax Proofs.MinMaxProofs Model.MergePlan Proofs.MergePlanProofs Proofs.MergeBridge.
 From Coq Require Import ZArith List Permutation Lia.
 Open Scope Z_scope.
 
@@ -62,6 +62,30 @@ Theorem C11_query_superset : forall Q row_sat guard ftest, filter_facts Q row_sa
   msub (run_query Q row_sat guard ftest pre q st) (run_query Q row_sat guard ftest pre q st').
 Proof. exact ff_merge_query_superset. Qed.
 Print Assumptions C11_query_superset.
+
+(* the same two theorems with the premises discharged: Q = (bloom tree, regex tree) of C01/C02,
+   the row matcher is the documented row predicate [row_sat] on the row's JSON document (J maps a row
+   tag to its document) restricted to rows whose recorded entries include the document's entries
+   (what indexing guarantees, C18), the pruning test is the query Query builds (bloom part AND regex
+   field guard) evaluated on the filters; for every tokenizer and regex oracle *)
+Theorem C11_query_eq_concrete : forall tok re J e c st st' q,
+  store_wf st -> merge_ok e c st st' ->
+  Permutation (run_query Qr (row_satR tok re J) guardR ftestR None q st')
+              (run_query Qr (row_satR tok re J) guardR ftestR None q st).
+Proof. exact merge_query_eq_concrete. Qed.
+Print Assumptions C11_query_eq_concrete.
+
+Theorem C11_query_superset_concrete : forall tok re J e c st st' pre q,
+  store_wf st -> merge_ok e c st st' ->
+  msub (run_query Qr (row_satR tok re J) guardR ftestR pre q st)
+       (run_query Qr (row_satR tok re J) guardR ftestR pre q st').
+Proof. exact merge_query_superset_concrete. Qed.
+Print Assumptions C11_query_superset_concrete.
+
+Theorem C11_concrete_row_predicate : forall tok re J q r,
+  ents_ok tok J r = true -> row_satR tok re J q r = row_sat tok re (fst q) (snd q) (J (mr_tag r)).
+Proof. exact row_satR_exact. Qed.
+Print Assumptions C11_concrete_row_predicate.
 
 (* ... of rows that match the bloom and regex expression *)
 Theorem C11_query_sat : forall Q row_sat guard ftest pre q st r,
